@@ -1,28 +1,780 @@
-//! Engine `asy`: scripted async tasks inside modules (timers, select, wake chains).
+//! Engine `asy`: scripted async tasks inside modules (timers, select, wake chains) running on the real
+//! per-module tokio runtime and the real des time driver; plus the virtual-time evaluator of the scripts.
 
-use crate::net::NetProgram;
+use crate::bodies::Token;
+use crate::common::*;
+use crate::net::{module_path, normalise, rec, Ev, NetProgram, NetResult};
+use crate::prng::Rng;
+use des::prelude::*;
+use des::time::{interval, sleep, sleep_until, timeout, MissedTickBehavior};
 use serde::{Deserialize, Serialize};
+use std::cell::RefCell;
+use std::collections::BTreeMap;
+use std::future::Future;
+use std::pin::Pin;
 use std::rc::Rc;
+use std::task::{Context, Poll};
+use std::time::Duration;
+use tokio::sync::mpsc;
+
+#[derive(Serialize, Deserialize, Clone, Debug, PartialEq, Eq, Hash)]
+#[serde(tag = "s")]
+pub enum AStep {
+    Sleep { d: u64 },
+    /// relative to the start of the incarnation
+    SleepUntil { at: u64 },
+    /// inner: 0 = sleep(d2), 1 = ready, 2 = never
+    Timeout { d: u64, inner: u8, d2: u64 },
+    Select { ds: Vec<u64> },
+    /// pinned sleep(d0), optionally polled once, then reset to now + d1 and awaited
+    Reset { d0: u64, d1: u64, poll_first: bool },
+    /// behaviour: 0 burst, 1 delay, 2 skip; after each tick the task sleeps `work`
+    Interval { period: u64, behaviour: u8, ticks: u8, work: u64 },
+    /// wake task `to` of the same module
+    Notify { to: u16 },
+    /// wait for one notification
+    Wait,
+    Random,
+    Panic,
+    /// select over two branches that are both ready: logs which one was taken (C04)
+    SelectReady,
+    Shutdown { restart: i64 },
+}
 
 #[derive(Serialize, Deserialize, Clone, Debug, PartialEq, Eq, Hash, Default)]
 pub struct TaskSpec {
-    pub steps: Vec<u32>,
+    /// spawn_local instead of tokio::spawn
+    pub local: bool,
+    /// 0 = not joined, 1 = ModuleContext::join, 2 = try_join
+    pub join: u8,
+    pub steps: Vec<AStep>,
 }
 
-pub fn reset_run() {}
+// task record codes
+pub const T_DONE: u32 = 0;
+pub const T_OK: u32 = 1;
+pub const T_ELAPSED: u32 = 2;
+pub const T_BRANCH: u32 = 10; // + branch index
+pub const T_TICK: u32 = 100; // + tick number
+pub const T_RAND: u32 = 200;
+pub const T_FINISHED: u32 = 300;
+pub const T_READY_BRANCH: u32 = 400;
 
-pub fn spawn_tasks(_m: usize, _inc: u16, _prog: &Rc<NetProgram>) {}
-
-pub fn gen_tasks_c04(_rng: &mut crate::prng::Rng) -> Vec<TaskSpec> {
-    Vec::new()
+thread_local! {
+    /// task polls since the start of the current module event, and the maximum seen per module
+    static POLLS: RefCell<u64> = const { RefCell::new(0) };
+    static MAX_POLLS: RefCell<BTreeMap<usize, u64>> = const { RefCell::new(BTreeMap::new()) };
+    static TOTAL_POLLS: RefCell<u64> = const { RefCell::new(0) };
 }
 
-pub fn gen_tasks_c09(_rng: &mut crate::prng::Rng) -> Vec<TaskSpec> {
-    Vec::new()
+pub fn reset_run() {
+    POLLS.with(|p| *p.borrow_mut() = 0);
+    TOTAL_POLLS.with(|p| *p.borrow_mut() = 0);
+    MAX_POLLS.with(|p| p.borrow_mut().clear());
 }
-pub fn gen_tasks_c13(_rng: &mut crate::prng::Rng) -> Vec<TaskSpec> {
-    Vec::new()
+
+/// called at the start of every module event (from the harness processing element / module callbacks)
+pub fn event_boundary() {
+    POLLS.with(|p| *p.borrow_mut() = 0);
 }
-pub fn gen_tasks_c20(_rng: &mut crate::prng::Rng) -> Vec<TaskSpec> {
-    Vec::new()
+
+pub fn max_polls() -> BTreeMap<usize, u64> {
+    MAX_POLLS.with(|p| p.borrow().clone())
+}
+pub fn total_polls() -> u64 {
+    TOTAL_POLLS.with(|p| *p.borrow())
+}
+
+struct Counted<F> {
+    m: usize,
+    inner: Pin<Box<F>>,
+}
+impl<F: Future> Future for Counted<F> {
+    type Output = F::Output;
+    fn poll(mut self: Pin<&mut Self>, cx: &mut Context<'_>) -> Poll<F::Output> {
+        let n = POLLS.with(|p| {
+            let mut p = p.borrow_mut();
+            *p += 1;
+            *p
+        });
+        TOTAL_POLLS.with(|p| *p.borrow_mut() += 1);
+        let m = self.m;
+        MAX_POLLS.with(|mp| {
+            let mut mp = mp.borrow_mut();
+            let e = mp.entry(m).or_insert(0);
+            *e = (*e).max(n);
+        });
+        self.inner.as_mut().poll(cx)
+    }
+}
+// the harness is single threaded; tokio::spawn needs Send
+unsafe impl<F> Send for Counted<F> {}
+
+struct SendToken(#[allow(dead_code)] Token);
+unsafe impl Send for SendToken {}
+
+fn now_ns() -> u64 {
+    SimTime::now().as_nanos() as u64
+}
+
+async fn run_task(m: usize, ti: usize, inc: u16, start_ns: u64, spec: TaskSpec, inbox: mpsc::UnboundedReceiver<()>, outs: Vec<mpsc::UnboundedSender<()>>, _token: SendToken) {
+    let mut inbox = inbox;
+    let log = |step: usize, code: u32, val: u64| rec(m, Ev::Task { task: ti as u16, step: step as u16, inc, code, val });
+    for (si, st) in spec.steps.iter().enumerate() {
+        match st {
+            AStep::Sleep { d } => {
+                sleep(Duration::from_nanos(*d)).await;
+                log(si, T_DONE, 0);
+            }
+            AStep::SleepUntil { at } => {
+                sleep_until(SimTime::from_duration(Duration::from_nanos(start_ns + at))).await;
+                log(si, T_DONE, 0);
+            }
+            AStep::Timeout { d, inner, d2 } => {
+                let dur = Duration::from_nanos(*d);
+                let ok = match inner % 3 {
+                    0 => timeout(dur, sleep(Duration::from_nanos(*d2))).await.is_ok(),
+                    1 => timeout(dur, std::future::ready(())).await.is_ok(),
+                    _ => timeout(dur, std::future::pending::<()>()).await.is_ok(),
+                };
+                log(si, if ok { T_OK } else { T_ELAPSED }, 0);
+            }
+            AStep::Select { ds } => {
+                let d = |i: usize| Duration::from_nanos(ds.get(i).copied().unwrap_or(0));
+                let branch = match ds.len() {
+                    0 | 1 => {
+                        sleep(d(0)).await;
+                        0
+                    }
+                    2 => tokio::select! {
+                        () = sleep(d(0)) => 0,
+                        () = sleep(d(1)) => 1,
+                    },
+                    _ => tokio::select! {
+                        () = sleep(d(0)) => 0,
+                        () = sleep(d(1)) => 1,
+                        () = sleep(d(2)) => 2,
+                    },
+                };
+                log(si, T_BRANCH + branch, 0);
+            }
+            AStep::Reset { d0, d1, poll_first } => {
+                let s = sleep(Duration::from_nanos(*d0));
+                tokio::pin!(s);
+                if *poll_first {
+                    // poll once so that the timer is registered, then leave through the ready branch
+                    tokio::select! {
+                        biased;
+                        () = &mut s => {},
+                        () = std::future::ready(()) => {},
+                    }
+                }
+                s.as_mut().reset(SimTime::now() + Duration::from_nanos(*d1));
+                s.await;
+                log(si, T_DONE, 0);
+            }
+            AStep::Interval { period, behaviour, ticks, work } => {
+                let mut iv = interval(Duration::from_nanos((*period).max(1)));
+                iv.set_missed_tick_behavior(match behaviour % 3 {
+                    0 => MissedTickBehavior::Burst,
+                    1 => MissedTickBehavior::Delay,
+                    _ => MissedTickBehavior::Skip,
+                });
+                for k in 0..*ticks {
+                    let inst = iv.tick().await;
+                    log(si, T_TICK + u32::from(k), inst.as_nanos() as u64);
+                    if *work > 0 {
+                        sleep(Duration::from_nanos(*work)).await;
+                    }
+                }
+            }
+            AStep::Notify { to } => {
+                if !outs.is_empty() {
+                    let _ = outs[*to as usize % outs.len()].send(());
+                }
+                log(si, T_DONE, 0);
+            }
+            AStep::Wait => {
+                let _ = inbox.recv().await;
+                log(si, T_DONE, 0);
+            }
+            AStep::Random => {
+                let v: u64 = random();
+                log(si, T_RAND, v);
+            }
+            AStep::SelectReady => {
+                let b = tokio::select! {
+                    () = std::future::ready(()) => 0,
+                    () = std::future::ready(()) => 1,
+                    () = std::future::ready(()) => 2,
+                };
+                log(si, T_READY_BRANCH + b, 0);
+            }
+            AStep::Panic => {
+                if crate::net::twin_mode() {
+                    return;
+                }
+                rec(m, Ev::PanicNow);
+                panic!("scripted panic in task {ti} of module {m}");
+            }
+            AStep::Shutdown { restart } => {
+                if inc >= crate::net::MAX_CYCLES {
+                    continue;
+                }
+                rec(m, Ev::ShutdownReq { restart: *restart });
+                if *restart < 0 {
+                    current().shutdown();
+                } else {
+                    current().shutdow_and_restart_in(Duration::from_nanos(*restart as u64));
+                }
+                log(si, T_DONE, 0);
+            }
+        }
+    }
+    log(spec.steps.len(), T_FINISHED, 0);
+}
+
+pub fn spawn_tasks(m: usize, inc: u16, prog: &Rc<NetProgram>) {
+    let specs = prog.modules[m].tasks.clone();
+    if specs.is_empty() {
+        return;
+    }
+    let start = now_ns();
+    let mut txs = Vec::new();
+    let mut rxs = Vec::new();
+    for _ in &specs {
+        let (tx, rx) = mpsc::unbounded_channel::<()>();
+        txs.push(tx);
+        rxs.push(rx);
+    }
+    for (ti, (spec, rx)) in specs.into_iter().zip(rxs.into_iter()).enumerate().take(6000) {
+        let fut = Counted { m, inner: Box::pin(run_task(m, ti, inc, start, spec.clone(), rx, txs.clone(), SendToken(Token::task()))) };
+        let handle = if spec.local { tokio::task::spawn_local(fut) } else { tokio::spawn(fut) };
+        match spec.join {
+            1 => current().join(handle),
+            2 => current().try_join(handle),
+            _ => drop(handle),
+        }
+    }
+}
+
+// ---------------------------------------------------------------- virtual-time evaluator
+
+#[derive(Clone, Debug, PartialEq, Eq)]
+pub struct Expect {
+    pub task: usize,
+    pub step: usize,
+    pub time: u64,
+    /// acceptable codes
+    pub codes: Vec<u32>,
+    /// expected `val` for interval ticks
+    pub val: Option<u64>,
+}
+
+struct TState {
+    pc: usize,
+    /// sub-state of the current step
+    sub: u32,
+    wake: Option<u64>,
+    waiting_inbox: bool,
+    inbox: u64,
+    done: bool,
+    // interval
+    iv_deadline: u64,
+}
+
+/// Expected completion instants of every step of every task of one module incarnation started at `start`.
+/// Only defined for scripts without Shutdown / Panic steps (those end the evaluation of the task).
+pub fn evaluate(tasks: &[TaskSpec], start: u64) -> Vec<Expect> {
+    let n = tasks.len();
+    let mut st: Vec<TState> = (0..n).map(|_| TState { pc: 0, sub: 0, wake: Some(start), waiting_inbox: false, inbox: 0, done: false, iv_deadline: 0 }).collect();
+    let mut out = Vec::new();
+    let mut now = start;
+    let mut guard = 0u64;
+    loop {
+        // run everything that can progress at `now` until nothing moves any more
+        let mut progressed = true;
+        while progressed {
+            progressed = false;
+            for ti in 0..n {
+                loop {
+                    guard += 1;
+                    if guard > 5_000_000 {
+                        return out;
+                    }
+                    let s = &mut st[ti];
+                    if s.done {
+                        break;
+                    }
+                    if s.waiting_inbox {
+                        if s.inbox > 0 {
+                            s.inbox -= 1;
+                            s.waiting_inbox = false;
+                            out.push(Expect { task: ti, step: s.pc, time: now, codes: vec![T_DONE], val: None });
+                            s.pc += 1;
+                            s.wake = Some(now);
+                        } else {
+                            break;
+                        }
+                    }
+                    match s.wake {
+                        Some(w) if w <= now => {}
+                        _ => break,
+                    }
+                    if s.pc >= tasks[ti].steps.len() {
+                        out.push(Expect { task: ti, step: s.pc, time: now, codes: vec![T_FINISHED], val: None });
+                        s.done = true;
+                        progressed = true;
+                        break;
+                    }
+                    progressed = true;
+                    let step = tasks[ti].steps[s.pc].clone();
+                    let pc = s.pc;
+                    match step {
+                        AStep::Sleep { d } => {
+                            if s.sub == 0 && d > 0 {
+                                s.sub = 1;
+                                s.wake = Some(now + d);
+                            } else {
+                                out.push(Expect { task: ti, step: pc, time: now, codes: vec![T_DONE], val: None });
+                                s.sub = 0;
+                                s.pc += 1;
+                            }
+                        }
+                        AStep::SleepUntil { at } => {
+                            let t = start + at;
+                            if s.sub == 0 && t > now {
+                                s.sub = 1;
+                                s.wake = Some(t);
+                            } else {
+                                out.push(Expect { task: ti, step: pc, time: now, codes: vec![T_DONE], val: None });
+                                s.sub = 0;
+                                s.pc += 1;
+                            }
+                        }
+                        AStep::Timeout { d, inner, d2 } => {
+                            // inner result iff the inner future completes no later than the deadline
+                            let (dt, code) = match inner % 3 {
+                                0 => {
+                                    if d2 <= d {
+                                        (d2, T_OK)
+                                    } else {
+                                        (d, T_ELAPSED)
+                                    }
+                                }
+                                1 => (0, T_OK),
+                                _ => (d, T_ELAPSED),
+                            };
+                            if s.sub == 0 && dt > 0 {
+                                s.sub = 1;
+                                s.wake = Some(now + dt);
+                            } else {
+                                out.push(Expect { task: ti, step: pc, time: now, codes: vec![code], val: None });
+                                s.sub = 0;
+                                s.pc += 1;
+                            }
+                        }
+                        AStep::Select { ds } => {
+                            let ds: Vec<u64> = if ds.is_empty() { vec![0] } else { ds.iter().copied().take(3).collect() };
+                            let min = *ds.iter().min().unwrap();
+                            if s.sub == 0 && min > 0 {
+                                s.sub = 1;
+                                s.wake = Some(now + min);
+                            } else {
+                                let codes = ds.iter().enumerate().filter(|(_, d)| **d == min).map(|(i, _)| T_BRANCH + i as u32).collect();
+                                out.push(Expect { task: ti, step: pc, time: now, codes, val: None });
+                                s.sub = 0;
+                                s.pc += 1;
+                            }
+                        }
+                        AStep::Reset { d1, .. } => {
+                            if s.sub == 0 && d1 > 0 {
+                                s.sub = 1;
+                                s.wake = Some(now + d1);
+                            } else {
+                                out.push(Expect { task: ti, step: pc, time: now, codes: vec![T_DONE], val: None });
+                                s.sub = 0;
+                                s.pc += 1;
+                            }
+                        }
+                        AStep::Interval { period, behaviour, ticks, work } => {
+                            let period = period.max(1);
+                            // sub: 0 = not created; 1 + 2k = waiting for tick k; 2 + 2k = working after tick k
+                            if s.sub == 0 {
+                                s.iv_deadline = now; // created now: the first tick is due immediately
+                                s.sub = 1;
+                            }
+                            let k = (s.sub - 1) / 2;
+                            if (s.sub - 1) % 2 == 1 {
+                                // work finished (we were woken): wait for the next tick
+                                s.sub += 1;
+                                continue;
+                            }
+                            if k >= u32::from(ticks) {
+                                s.sub = 0;
+                                s.pc += 1;
+                                continue;
+                            }
+                            if s.iv_deadline > now {
+                                s.wake = Some(s.iv_deadline);
+                                break;
+                            }
+                            let d = s.iv_deadline;
+                            out.push(Expect { task: ti, step: pc, time: now, codes: vec![T_TICK + k], val: Some(d) });
+                            s.iv_deadline = if now > d {
+                                match behaviour % 3 {
+                                    0 => d + period,
+                                    1 => now + period,
+                                    _ => now + period - ((now - d) % period),
+                                }
+                            } else {
+                                d + period
+                            };
+                            if work > 0 {
+                                s.wake = Some(now + work);
+                                s.sub += 1;
+                            } else {
+                                s.sub += 2;
+                            }
+                        }
+                        AStep::Notify { to } => {
+                            let to = to as usize % n;
+                            st[to].inbox += 1;
+                            let s = &mut st[ti];
+                            out.push(Expect { task: ti, step: pc, time: now, codes: vec![T_DONE], val: None });
+                            s.pc += 1;
+                        }
+                        AStep::Wait => {
+                            s.waiting_inbox = true;
+                        }
+                        AStep::Random => {
+                            out.push(Expect { task: ti, step: pc, time: now, codes: vec![T_RAND], val: None });
+                            s.pc += 1;
+                        }
+                        AStep::SelectReady => {
+                            out.push(Expect { task: ti, step: pc, time: now, codes: vec![T_READY_BRANCH, T_READY_BRANCH + 1, T_READY_BRANCH + 2], val: None });
+                            s.pc += 1;
+                        }
+                        AStep::Panic | AStep::Shutdown { .. } => {
+                            s.done = true;
+                        }
+                    }
+                }
+            }
+        }
+        // advance to the next timer deadline
+        let next = st.iter().filter(|s| !s.done && !s.waiting_inbox).filter_map(|s| s.wake).filter(|w| *w > now).min();
+        match next {
+            Some(t) => now = t,
+            None => break,
+        }
+    }
+    out
+}
+
+fn finite(tasks: &[TaskSpec]) -> bool {
+    !tasks.iter().any(|t| t.steps.iter().any(|s| matches!(s, AStep::Panic | AStep::Shutdown { .. })))
+}
+
+/// Compares the task records of fault-free modules with the evaluator. `prop` selects which rule names are used.
+pub fn check_tasks(prog: &NetProgram, res: &NetResult, prop: &str, info: &mut RunInfo) {
+    let prog = &normalise(prog);
+    if let Some(e) = &res.escaped_panic {
+        info.violate(Violation::new(prop, "panic", format!("building or running the model panicked: {e}")));
+        return;
+    }
+    let maxp = max_polls();
+    let mut multi_runnable = false;
+    let mut timer_dropped_while_other_pending = false;
+    for (m, spec) in prog.modules.iter().enumerate() {
+        if spec.tasks.is_empty() || !finite(&spec.tasks) {
+            continue;
+        }
+        // this oracle is for modules that are never shut down and never panic
+        let disturbed = res.trace.iter().any(|r| r.m as usize == m && matches!(r.ev, Ev::ShutdownReq { .. } | Ev::PanicNow | Ev::Reset { .. }));
+        if disturbed {
+            continue;
+        }
+        let expect = evaluate(&spec.tasks, 0);
+        let got: Vec<(usize, usize, u64, u32, u64)> = res
+            .trace
+            .iter()
+            .filter(|r| r.m as usize == m)
+            .filter_map(|r| if let Ev::Task { task, step, code, val, .. } = &r.ev { Some((*task as usize, *step as usize, r.t, *code, *val)) } else { None })
+            .collect();
+        // instants with >= 2 resumptions
+        let mut per_t: BTreeMap<u64, usize> = BTreeMap::new();
+        for e in &expect {
+            *per_t.entry(e.time).or_insert(0) += 1;
+        }
+        if per_t.values().any(|c| *c >= 2) {
+            multi_runnable = true;
+        }
+        if spec.tasks.len() >= 2 && spec.tasks.iter().any(|t| t.steps.iter().any(|s| matches!(s, AStep::Select { .. } | AStep::Timeout { .. } | AStep::Reset { .. }))) {
+            timer_dropped_while_other_pending = true;
+        }
+        let limit_stopped = res.ok.map_or(false, |o| o.2 > 0) || prog.max_events > 0 || prog.max_time_ns > 0;
+        let polls = maxp.get(&m).copied().unwrap_or(0) as i64;
+        // most channel receives one task performs within one instant (tokio's cooperative budget is 128 per poll)
+        let mut recv_per: BTreeMap<(usize, u64), i64> = BTreeMap::new();
+        for e in &expect {
+            if matches!(spec.tasks[e.task].steps.get(e.step), Some(AStep::Wait)) {
+                *recv_per.entry((e.task, e.time)).or_insert(0) += 1;
+            }
+        }
+        let max_recv = recv_per.values().copied().max().unwrap_or(0);
+        for e in &expect {
+            let g = got.iter().find(|g| g.0 == e.task && g.1 == e.step && (e.val.is_none() || e.codes.contains(&g.3)));
+            match g {
+                None => {
+                    if limit_stopped {
+                        continue;
+                    }
+                    let rule = if prop == "C06" { "never-resumed" } else { "timer-lost" };
+                    info.violate(Violation::new(prop, rule, format!(
+                        "module {} task {} step {} ({:?}) must complete at {} ns but never did (run ended at {:?})",
+                        module_path(prog, m), e.task, e.step, spec.tasks[e.task].steps.get(e.step), e.time, res.ok.map(|o| o.0)))
+                        .fact("max_polls_in_module_event", polls).fact("max_recv_by_one_task_in_one_instant", max_recv));
+                    return;
+                }
+                Some(g) => {
+                    if g.2 != e.time {
+                        let rule = if prop == "C06" { "resumed-late" } else if g.2 > e.time { "timer-late" } else { "timer-early" };
+                        info.violate(Violation::new(prop, rule, format!(
+                            "module {} task {} step {} ({:?}) completed at {} ns, the awaited condition became true at {} ns",
+                            module_path(prog, m), e.task, e.step, spec.tasks[e.task].steps.get(e.step), g.2, e.time))
+                            .fact("max_polls_in_module_event", polls)
+                            .fact("max_recv_by_one_task_in_one_instant", max_recv)
+                            .fact("late", i64::from(g.2 > e.time)));
+                        return;
+                    }
+                    if prop == "C05" {
+                        if !e.codes.contains(&g.3) {
+                            info.violate(Violation::new(prop, "timer-outcome", format!(
+                                "module {} task {} step {} ({:?}) finished with outcome code {} at {} ns, expected one of {:?}",
+                                module_path(prog, m), e.task, e.step, spec.tasks[e.task].steps.get(e.step), g.3, g.2, e.codes)));
+                            return;
+                        }
+                        if let Some(v) = e.val {
+                            if g.4 != v {
+                                info.violate(Violation::new(prop, "interval-tick", format!(
+                                    "module {} task {} step {}: tick returned instant {} ns, period and missed-tick behaviour give {} ns",
+                                    module_path(prog, m), e.task, e.step, g.4, v)));
+                                return;
+                            }
+                        }
+                    }
+                }
+            }
+        }
+        // nothing beyond the script
+        if got.len() > expect.len() && !limit_stopped {
+            info.violate(Violation::new(prop, "extra-task-record", format!("module {} produced {} task records, the scripts have {}", module_path(prog, m), got.len(), expect.len())));
+            return;
+        }
+        // joined finite tasks must not be reported as unfinished
+        if !limit_stopped && res.errors.iter().any(|(k, p)| k == "join-not-finished" && *p == module_path(prog, m)) {
+            let rule = if prop == "C06" { "never-resumed" } else { "timer-lost" };
+            info.violate(Violation::new(prop, rule, format!("run() reports an unfinished joined task of module {} although every script is finite", module_path(prog, m)))
+                .fact("max_polls_in_module_event", polls).fact("max_recv_by_one_task_in_one_instant", max_recv));
+            return;
+        }
+        // the run must not outlast the last expected completion of this module if nothing else is going on
+    }
+    info.probe_n("task_polls", total_polls());
+    info.probe_n("max_polls_in_one_module_event", maxp.values().copied().max().unwrap_or(0));
+    if maxp.values().any(|p| *p >= 61) {
+        info.probe("module_event_with_61_or_more_polls");
+    }
+    info.events += res.ok.map_or(0, |o| o.1 as u64);
+    info.sim_time_ns += u128::from(res.ok.map_or(0, |o| o.0));
+    info.nontrivial = if prop == "C06" { multi_runnable } else { timer_dropped_while_other_pending };
+}
+
+// ---------------------------------------------------------------- generators
+
+const MS: u64 = 1_000_000;
+
+fn gen_timer_step(rng: &mut Rng) -> AStep {
+    let d = |rng: &mut Rng| *rng.pick(&[0u64, 1, 1_000, MS, 5 * MS, 10 * MS, 250 * MS, 1_000 * MS, 5_000 * MS]) * (1 + rng.below(3));
+    match rng.below(10) {
+        0 | 1 => AStep::Sleep { d: d(rng) },
+        2 => AStep::SleepUntil { at: d(rng) * rng.below(4) },
+        3 | 4 => AStep::Timeout { d: d(rng), inner: rng.below(3) as u8, d2: d(rng) },
+        5 | 6 => {
+            let n = 2 + rng.below(2) as usize;
+            let base = d(rng);
+            AStep::Select { ds: (0..n).map(|_| if rng.chance(1, 3) { base } else { d(rng) }).collect() }
+        }
+        7 | 8 => AStep::Reset { d0: d(rng), d1: d(rng), poll_first: rng.chance(2, 3) },
+        _ => {
+            let period = 20 * MS * (1 + rng.below(5));
+            let work = match rng.below(5) {
+                0 => 0,
+                1 => period / 2,
+                2 => period,
+                3 => 2 * period,
+                _ => 3 * period + 10 * MS,
+            };
+            AStep::Interval { period, behaviour: rng.below(3) as u8, ticks: 1 + rng.below(5) as u8, work }
+        }
+    }
+}
+
+pub fn gen_c05(rng: &mut Rng, tier: Tier) -> NetProgram {
+    let nmod = 1 + rng.small(3) as usize;
+    let mut prog = NetProgram { seed: rng.u64(), ..Default::default() };
+    let max_steps = if tier == Tier::Thorough { 12 } else { 7 };
+    for i in 0..nmod {
+        let mut spec = crate::net::ModSpec { name: format!("m{i}"), parent: -1, stages: 1, panic_at: 255, ..Default::default() };
+        let ntasks = 1 + rng.small(5) as usize;
+        for _ in 0..ntasks {
+            let ns = 1 + rng.small(max_steps) as usize;
+            spec.tasks.push(TaskSpec { local: rng.chance(1, 3), join: rng.below(3) as u8, steps: (0..ns).map(|_| gen_timer_step(rng)).collect() });
+        }
+        // some ordinary message traffic of the module itself keeps events coming at other instants
+        if rng.chance(1, 2) {
+            for k in 0..rng.small(4) {
+                spec.beats.push(crate::net::Beat { at_ns: k * 700 * MS + rng.below(3) * MS, acts: vec![crate::net::Act::SelfMsg { delay_ns: rng.below(10) * MS }] });
+            }
+        }
+        prog.modules.push(spec);
+    }
+    prog.order = (0..nmod as u32).collect();
+    prog
+}
+
+pub fn gen_c06(rng: &mut Rng, tier: Tier) -> NetProgram {
+    let mut prog = NetProgram { seed: rng.u64(), ..Default::default() };
+    let mut spec = crate::net::ModSpec { name: "m0".into(), parent: -1, stages: 1, panic_at: 255, ..Default::default() };
+    let local = rng.chance(1, 3);
+    // most runs stay below the executor's per-turn budget; a few go far beyond it
+    let big = rng.chance(1, 12);
+    let cap = if tier == Tier::Thorough { 3000 } else { 300 };
+    match rng.below(3) {
+        0 => {
+            // k tasks due at the same instant
+            let k = if big { 62 + rng.usize(cap) } else { 1 + rng.small(40) as usize };
+            let d = *rng.pick(&[0u64, MS, 5_000 * MS]);
+            for _ in 0..k {
+                let mut steps = vec![AStep::Sleep { d }];
+                if rng.chance(1, 3) {
+                    steps.push(AStep::Sleep { d: MS });
+                }
+                spec.tasks.push(TaskSpec { local, join: rng.below(2) as u8, steps });
+            }
+        }
+        1 => {
+            // wake chain: task 0 sleeps, then wakes 1, which wakes 2, ...
+            let depth = if big { 62 + rng.usize(cap) } else { 2 + rng.small(30) as usize };
+            for i in 0..depth {
+                let mut steps = Vec::new();
+                if i == 0 {
+                    steps.push(AStep::Sleep { d: 1_000 * MS });
+                } else {
+                    steps.push(AStep::Wait);
+                }
+                if i + 1 < depth {
+                    steps.push(AStep::Notify { to: (i + 1) as u16 });
+                }
+                if rng.chance(1, 4) {
+                    steps.push(AStep::Sleep { d: 3 * MS });
+                }
+                spec.tasks.push(TaskSpec { local, join: 1, steps });
+            }
+        }
+        _ => {
+            // one task doing many receives in a single poll, fed by a producer
+            let w = if big { 200 + rng.usize(cap * 5) } else { 1 + rng.small(100) as usize };
+            let mut prod = vec![AStep::Sleep { d: 10 * MS }];
+            for _ in 0..w {
+                prod.push(AStep::Notify { to: 1 });
+            }
+            let mut cons = Vec::new();
+            for _ in 0..w {
+                cons.push(AStep::Wait);
+            }
+            spec.tasks.push(TaskSpec { local, join: 1, steps: prod });
+            spec.tasks.push(TaskSpec { local, join: 1, steps: cons });
+            for _ in 0..rng.small(10) {
+                spec.tasks.push(TaskSpec { local, join: 0, steps: vec![AStep::Sleep { d: 10 * MS }] });
+            }
+        }
+    }
+    // the trigger of the instant can also be a message
+    if rng.chance(1, 3) {
+        spec.beats.push(crate::net::Beat { at_ns: 1_000 * MS, acts: vec![crate::net::Act::SelfMsg { delay_ns: 0 }] });
+    }
+    prog.modules.push(spec);
+    prog.order = vec![0];
+    prog
+}
+
+pub fn gen_tasks_c04(rng: &mut Rng) -> Vec<TaskSpec> {
+    let mut v = Vec::new();
+    for _ in 0..rng.small(3) {
+        let ns = 1 + rng.small(6) as usize;
+        let steps = (0..ns)
+            .map(|_| match rng.below(5) {
+                0 => AStep::Random,
+                1 | 2 => AStep::SelectReady,
+                3 => AStep::Select { ds: vec![5 * MS, 5 * MS, 5 * MS] },
+                _ => AStep::Sleep { d: rng.below(20) * MS },
+            })
+            .collect();
+        v.push(TaskSpec { local: rng.chance(1, 3), join: rng.below(3) as u8, steps });
+    }
+    v
+}
+
+pub fn gen_tasks_c09(rng: &mut Rng) -> Vec<TaskSpec> {
+    let mut v = Vec::new();
+    for _ in 0..rng.small(2) {
+        let ns = 2 + rng.small(8) as usize;
+        let mut steps: Vec<AStep> = (0..ns)
+            .map(|_| match rng.below(4) {
+                0 => AStep::Interval { period: 100 * MS * (1 + rng.below(3)), behaviour: 0, ticks: 2 + rng.below(4) as u8, work: 0 },
+                _ => AStep::Sleep { d: 250 * MS * (1 + rng.below(4)) },
+            })
+            .collect();
+        if rng.chance(1, 5) {
+            let pos = rng.usize(steps.len());
+            steps.insert(pos, AStep::Shutdown { restart: if rng.chance(1, 3) { -1 } else { (rng.below(4) * 250 * MS) as i64 } });
+        }
+        v.push(TaskSpec { local: rng.chance(1, 3), join: 0, steps });
+    }
+    v
+}
+
+pub fn gen_tasks_c13(rng: &mut Rng) -> Vec<TaskSpec> {
+    let mut v = Vec::new();
+    for _ in 0..rng.small(2) {
+        let ns = 1 + rng.small(5) as usize;
+        let steps: Vec<AStep> = (0..ns).map(|_| AStep::Sleep { d: 250 * MS * (1 + rng.below(4)) }).collect();
+        v.push(TaskSpec { local: rng.chance(1, 3), join: rng.below(3) as u8, steps });
+    }
+    v
+}
+
+/// a joined task that panics at its k-th step (C13)
+pub fn panicking_task(rng: &mut Rng) -> TaskSpec {
+    let ns = 1 + rng.small(4) as usize;
+    let mut steps: Vec<AStep> = (0..ns).map(|_| AStep::Sleep { d: 250 * MS * (1 + rng.below(4)) }).collect();
+    let pos = rng.usize(steps.len() + 1);
+    steps.insert(pos, AStep::Panic);
+    TaskSpec { local: rng.chance(1, 3), join: 1 + rng.below(2) as u8, steps }
+}
+
+pub fn gen_tasks_c20(rng: &mut Rng) -> Vec<TaskSpec> {
+    let mut v = Vec::new();
+    for _ in 0..rng.small(3) {
+        let steps = match rng.below(4) {
+            0 => vec![AStep::Sleep { d: 100_000 * MS }],           // blocked on a timer when the run stops
+            1 => vec![AStep::Wait],                                // blocked on a receive forever
+            2 => vec![AStep::Sleep { d: 300 * MS }, AStep::Timeout { d: 50_000 * MS, inner: 2, d2: 0 }],
+            _ => (0..1 + rng.small(4)).map(|_| AStep::Sleep { d: 200 * MS }).collect(),
+        };
+        v.push(TaskSpec { local: rng.chance(1, 3), join: 0, steps });
+    }
+    v
 }
